@@ -22,6 +22,7 @@ func checkC18(r *Report, p *Program) {
 	r18_2(r, p)
 	r18_4(r, p)
 	informerAcquireRelease(r, p, "R18.5")
+	checkThenAct(r, p, "R18.6")
 }
 
 // lockDiscipline (A6): all accesses to the selected shared maps hold one common
@@ -751,4 +752,131 @@ func longLived(p *Program, mapID string, conc map[*ssa.Function]bool) bool {
 		}
 	}
 	return false
+}
+
+// checkThenAct (C17 R17.4, C18): a shared map that is consulted and then, depending
+// on what was found, written (lazy creation: lookup → nil → create → store) must
+// keep the guarding mutex from the lookup to the store. If the mutex is released
+// in between, every access is still "under the lock" (no data race) but two
+// callers can both see 'absent' and both create: the second store overwrites the
+// first — a leaked informer subscription, doubled event handlers, a lost refcount.
+func checkThenAct(r *Report, p *Program, rule string) {
+	r.Rule(rule, "lookup-then-store on a shared map is one critical section: no release of the guarding mutex between the read and the write that depends on it")
+	n := 0
+	for _, f := range p.Scanned {
+		accs := engine.MapAccesses(f, nil)
+		if len(accs) < 2 {
+			continue
+		}
+		ord := map[string]int{}
+		for _, a := range accs {
+			if a.Write || len(a.Held) == 0 {
+				continue
+			}
+			rv, _ := a.Instr.(ssa.Value)
+			if rv == nil {
+				continue
+			}
+			for _, b := range accs {
+				if !b.Write || b.Map != a.Map || b.Instr == a.Instr {
+					continue
+				}
+				// the write is reachable from the read, and only across a branch on what was read
+				from := []engine.Point{engine.After(a.Instr)}
+				// within one iteration: do not follow the back edge of an enclosing loop
+				var hdr *ssa.BasicBlock
+				if l := engine.EnclosingLoop(engine.RangeLoops(f), a.Instr); l != nil {
+					hdr = l.Header
+				}
+				noBack := func(x ssa.Instruction) bool { return hdr != nil && x.Block() == hdr }
+				if (engine.Query{Fn: f, From: from, Target: func(in ssa.Instruction) bool { return in == b.Instr }, CutInstr: noBack}).Find() == nil {
+					continue
+				}
+				dep := func(l Lit) bool {
+					return l.Cond != nil && engine.BackSlice(l.Cond, func(x ssa.Value) bool { return x == rv }, nil)
+				}
+				if unguarded(f, from, b.Instr, dep) != nil {
+					continue // not conditional on the value read: not a check-then-act pair
+				}
+				// only where the stored value is a live resource created in between (an informer,
+				// a subscription, something with goroutines/handlers attached): creating it twice
+				// leaks one. A memo of plain data written after a slow call (the server-side-apply
+				// hash) is last-writer-wins and must NOT hold the lock across the call.
+				var stored ssa.Value
+				switch w := b.Instr.(type) {
+				case *ssa.MapUpdate:
+					stored = w.Value
+				case ssa.CallInstruction:
+					if args := w.Common().Args; len(args) > 0 {
+						stored = args[len(args)-1]
+					}
+				}
+				if stored == nil || !createsLiveResource(p, stored) {
+					continue
+				}
+				n++
+				k := engine.Short(a.Map) + "@" + Short(FK(f))
+				c := sf("%s#%d[check-then-act]", k, ord[k])
+				ord[k]++
+				// is some release of a mutex held at the read on a path read → … → write?
+				released := ""
+				for _, blk := range f.Blocks {
+					for _, in := range blk.Instrs {
+						call, isCall := in.(*ssa.Call)
+						if !isCall {
+							continue
+						}
+						m, op := engine.MutexOp(call.Common())
+						if op != "unlock" && op != "runlock" {
+							continue
+						}
+						held := false
+						for _, h := range a.Held {
+							held = held || h.Mutex == m
+						}
+						if !held {
+							continue
+						}
+						toU := engine.Query{Fn: f, From: from, Target: func(x ssa.Instruction) bool { return x == in }, CutInstr: noBack}.Find()
+						fromU := engine.Query{Fn: f, From: []engine.Point{engine.After(in)}, Target: func(x ssa.Instruction) bool { return x == b.Instr }, CutInstr: noBack}.Find()
+						if toU != nil && fromU != nil {
+							released = p.InstrPos(in)
+						}
+					}
+				}
+				r.Check(rule, c, p.InstrPos(b.Instr), released == "", "lookup and dependent store in one critical section ("+heldString(a.Held)+")",
+					"the mutex guarding "+engine.Short(a.Map)+" is released (at "+released+") between the lookup at "+p.InstrPos(a.Instr)+" and the store that depends on its result: two concurrent callers can both find the entry absent and both create it; the second store overwrites the first")
+			}
+		}
+	}
+	r.Floor(rule, 2)
+	_ = n
+}
+
+// createsLiveResource: v was produced by a module call that (transitively)
+// starts a goroutine or registers an event handler.
+func createsLiveResource(p *Program, v ssa.Value) bool {
+	live := false
+	engine.BackSlice(v, func(x ssa.Value) bool {
+		c, ok := x.(*ssa.Call)
+		if !ok {
+			return false
+		}
+		for _, g := range p.CalleesOf(c) {
+			for h := range p.CG().ReachSet(g) {
+				for _, b := range h.Blocks {
+					for _, in := range b.Instrs {
+						if _, isGo := in.(*ssa.Go); isGo {
+							live = true
+						}
+						if isCallTo(in, "AddEventHandler", "AddEventHandlerWithResyncPeriod") {
+							live = true
+						}
+					}
+				}
+			}
+		}
+		return live
+	}, nil)
+	return live
 }
